@@ -297,7 +297,12 @@ def _work(case):
             key = pl.nontrivial_key(case, out) if err is None else None
         except Exception:
             key = None
-        return (sexp.dumps(out) if out is not None else None, viol, key)
+        try:
+            enc = sexp.dumps(out) if out is not None else None
+        except Exception as e:       # e.g. a negative line/column: not representable, certainly not what the model says
+            enc = None
+            viol = list(viol) + [("impl-output-not-encodable", "%s: %r" % (type(e).__name__, out))]
+        return (enc, viol, key)
     finally:
         signal.alarm(0)
 
